@@ -145,6 +145,30 @@ def run(ctx):
         elif not np.allclose(im_a["rf"], im_b["rf"], rtol=1e-7, atol=1e-10) or (kind_ == "single" and not np.allclose(im_a["rfd"], im_b["rfd"], rtol=1e-7, atol=1e-10)):
             bad("recovery depends on whether a level came from the iterative solver or from the direct-solve fallback (a flagged iterate was kept)", inp,
                 dict(flux_final=[float(im_a["rf"][-1]), float(im_b["rf"][-1])], max_diff=float(np.abs(im_a["rf"] - im_b["rf"]).max())))
+    # ---------------- the far end of a refinement ladder: more than a thousand nodes (a few steps only - each costs 0.1 s): both
+    # recoveries start at zero, neither decreases under constant drawdown, the in-place one stays under its ceiling, and the two agree with
+    # the run on half as many nodes to first order (any "large grid" code path must still solve the same problem)
+    tbl = rescorr.synth_table("ideal", 60)
+    pl = np.asarray(tbl["pressure"], float)
+    for nx_big, pf_big in ((1100, 1500.0),) if ctx.quick else ((1100, 1500.0), (1600, 4000.0), (2100, 800.0)):
+        tg_big = np.linspace(0, 0.3, 9) ** 2
+        big = rescorr.run_impl(dict(kind="single", table=tbl, pi=8000.0, pf=pf_big, nx=nx_big, times=tg_big))
+        half = rescorr.run_impl(dict(kind="single", table=tbl, pi=8000.0, pf=pf_big, nx=nx_big // 2, times=tg_big))
+        ev += 2
+        inp = dict(table="ideal-gas (consistent)", nx=nx_big, p_frac=pf_big, p_initial=8000.0, times="linspace(0, 0.3, 9)**2")
+        if "rf" not in big or "rf" not in half:
+            bad("simulation fails on a grid of more than a thousand nodes", inp, big.get("error") or half.get("error"))
+            continue
+        ceiling_b = 1.0 - float(np.interp(pf_big, pl, tbl["density"]) / np.interp(8000.0, pl, tbl["density"]))
+        if big["rf"][0] != 0.0 or big["rfd"][0] != 0.0:
+            bad("recovery does not start at zero", inp, dict(flux=float(big["rf"][0]), inplace=float(big["rfd"][0])))
+        if np.diff(big["rf"]).min() < -1e-9 or np.diff(big["rfd"])[1:].min() < -1e-9:
+            bad("recovery decreases in time although frac-face pressure does not rise", inp, dict(flux=[float(x) for x in big["rf"][:5]], inplace=[float(x) for x in big["rfd"][:5]]))
+        if big["rfd"].max() > ceiling_b + 1e-9:
+            bad("in-place recovery exceeds one minus the density ratio at the frac-face pressure", inp, dict(inplace_max=float(big["rfd"].max()), ceiling=ceiling_b))
+        if np.abs(big["rfd"] - half["rfd"]).max() > 0.02 * ceiling_b:
+            bad("in-place recovery on a grid of more than a thousand nodes is not the refinement of the one on half as many nodes", inp,
+                dict(inplace=[float(x) for x in big["rfd"][:5]], inplace_half_as_many_nodes=[float(x) for x in half["rfd"][:5]]))
     # ---------------- several wells simulated at the same time in a thread pool (same node count, own tables / pressures / grids): each
     # gets the recoveries it gets when simulated alone
     tbc = rescorr.synth_table("ideal", 120)
